@@ -87,6 +87,21 @@ def cont_task(dim=3, lo=-10.0, hi=10.0, obj="sphere", minmax="min", seed=None, *
     return {"vars": [("contmulti", ([lo] * dim, [hi] * dim))], "obj": obj, "minmax": minmax, "seed": seed, **kw}
 
 
+def task_view(task) -> dict:
+    """what a caller can see of a task: its public fields and the search-space description derived from it (bounds, flattened variables)"""
+    view = {"dump": task.model_dump(exclude={"data"})}
+    try:
+        lb, ub = task.get_bounds()
+        view["bounds"] = [np.asarray(lb, dtype=float).tolist(), np.asarray(ub, dtype=float).tolist()]
+    except Exception as e:
+        view["bounds"] = f"raises {type(e).__name__}"
+    try:
+        view["variables"] = [(type(v).__name__, v.model_dump()) for v in task.get_variables()]
+    except Exception as e:
+        view["variables"] = f"raises {type(e).__name__}"
+    return view
+
+
 def run_job(job: dict) -> dict:
     """one optimize() call (or a sequence on one instance) -> observation"""
     import contextlib, io
@@ -99,7 +114,7 @@ def run_job(job: dict) -> dict:
             rec = tempfile.mktemp(prefix="pvrec_", dir=os.environ.get("PV_TMP", "/var/tmp"))
         task = build_task(job["task"], rec)
         obs["config_before"] = cfg.model_dump()
-        obs["task_before"] = task.model_dump(exclude={"data"})
+        obs["task_before"] = task_view(task)
         if job.get("pre_draws"):
             np.random.random(job["pre_draws"])
         snaps = None
@@ -156,7 +171,7 @@ def run_job(job: dict) -> dict:
         obs["rates"] = [float(x) for x in res.rates]
         obs["best"] = None if res.best_solution is None else (res.best_solution.position, res.best_solution.cost, res.best_solution.fitness)
         obs["config_after"] = cfg.model_dump()
-        obs["task_after"] = task.model_dump(exclude={"data"})
+        obs["task_after"] = task_view(task)
         if snaps is not None:
             obs["snapshots"] = snaps
         if job.get("trends"):
@@ -170,7 +185,7 @@ def run_job(job: dict) -> dict:
         where = next((f"{os.path.basename(fr.filename)}:{fr.name}" for fr in reversed(tb) if "/pyvolutionary/" in fr.filename), "harness")
         obs["error"] = {"type": type(e).__name__, "where": where, "msg": str(e)[:200]}
         try:
-            obs["config_after"] = cfg.model_dump(); obs["task_after"] = task.model_dump(exclude={"data"})
+            obs["config_after"] = cfg.model_dump(); obs["task_after"] = task_view(task)
         except Exception:
             pass
     finally:
